@@ -252,7 +252,7 @@ def conditions(tier, seed, active):
     def c(cid, factory, params, tags, timeout=300):
         out.append(dict(id=cid, module=__name__, factory=factory, params=params, timeout=timeout, tags=tags, witness=tags))
 
-    nmax = 5 if tier == "quick" else 6
+    nmax = 4 if tier == "quick" else 6
     for n in range(0, nmax + 1):
         c("raw/len%d" % n, "raw", dict(n=n), ["ok", "unresolvable"] if n >= 1 else ["ok"], timeout=900 if n >= 5 else 300)
     for n in range(0, 4 if tier == "quick" else 5):
